@@ -3,6 +3,7 @@ import AriesVerif.C15.Drv
 import AriesVerif.C19.Drv
 import AriesVerif.C09.Drv
 import AriesVerif.C20.Drv
+import AriesVerif.C18.Drv
 /-! Line protocol: stdin lines `<caseid>\t<input>[\t<impl output>]`;
     stdout lines `<caseid>\t<model output>\t<spec output>\t<finding tags>`.
     For properties whose Spec is an oracle over observed behaviour the spec column is the implementation's output
@@ -13,6 +14,7 @@ def dispatch (prop : String) (input : String) (impl : String) : String × String
   | "C11" => (C11.Drv.handle input, C11.Drv.handleSpec input, "")
   | "C15" => (C15.Drv.handle input, C15.Drv.handleSpec input, "")
   | "C19" => (C19.Drv.handle input, C19.Drv.handleSpec input, "")
+  | "C18" => C18.Drv.judge input impl
   | "C20" => (C20.Drv.handle input, C20.Drv.oracle input impl, "")
   | "C09" => (C09.Drv.handle input, C09.Drv.oracle input impl, C09.Drv.tags input)
   | _ => ("unknown-property", "unknown-property", "")
